@@ -5,6 +5,7 @@ PROP = dict(
     classes=["unchanged-cell-written", "locked-cell-overpainted", "ref-unavailable"],
     trusted_base=[LEAN_TB, CORR_TB, TRANS_TB,
                   "Layer A abstract terminal (ATerm.writes logs the cell every payload is addressed to); same model and correspondence as C01",
+                  "Layer B: the same simulation as C01 (Props/C01B) relates ATerm.writes-carrying abstract terminals to the byte-level emulator (cells not addressed keep their emulator contents: Rep is preserved cell by cell); stamps themselves are not part of Rep",
                   "oracle: per-cell write stamps of the Lean ECMA-48 reference emulator fed with the implementation's bytes"],
     assumptions=["same domain as C01 (no AttrInvalid styles, narrow Fill runes, entries without the corner trick for the theorems)",
                  "a Sync (clear screen) or a resize legitimately repaints everything, locked cells included"],
